@@ -69,12 +69,12 @@ class ElementwiseSDE(torch.nn.Module):
 
 def cases(tier, seed):
     out = []
-    reps = 2 if tier == "quick" else 20
+    reps = 2 if tier == "quick" else 60
     for ci, cell in enumerate(zoo.matrix()):
         for r in range(reps):
             out.append({"key": f"{zoo.cell_name(cell)}-{r}", "kind": "solver", "cell": cell,
                         "rseed": hash((seed, ci, r)) % (2 ** 31), "cost": 2})
-    nb = 60 if tier == "quick" else 600
+    nb = 60 if tier == "quick" else 3000
     for i in range(nb):
         out.append({"key": f"bm{i}", "kind": "bm", "rseed": hash((seed, 99, i)) % (2 ** 31)})
     return out
